@@ -76,6 +76,7 @@ func containsInt(xs []int, x int) bool {
 
 func (C13) Gen(r *simrt.RNG, tier string) core.Case {
 	cfg := world.SwarmCfg(r)
+	world.Deepen(&cfg, r, tier)
 	var w world.World
 	if r.Chance(2, 3) {
 		w = world.GenPlanned(r, cfg)
